@@ -190,6 +190,11 @@ func (fc *funcContext) translateStmt(stmt ast.Stmt, label *types.Label) {
 	case *ast.RangeStmt:
 		refVar := fc.newLocalVariable("_ref")
 		fc.Printf("%s = %s;", refVar, fc.translateExpr(s.X))
+		if _, isArray := fc.typeOf(s.X).Underlying().(*types.Array); isArray && !isBlank(s.Value) {
+			// The range expression of an array is evaluated once and copied: writes
+			// to the array inside the loop are not seen by the iteration values.
+			fc.Printf("%s = $clone(%s, %s);", refVar, refVar, fc.typeName(fc.typeOf(s.X)))
+		}
 
 		switch t := fc.typeOf(s.X).Underlying().(type) {
 		case *types.Basic:
